@@ -2,15 +2,18 @@ CHECK = dict(
     level='model_checking', engine='vsched',
     parts=[dict(name='c04', src=['harness/c04_messageq.c'], workers=64,
                 objs=[('@VERIF@/harness/c04_scn.c', ['-fsanitize=thread'])],
-                deadline=dict(quick=120, thorough=1500))],
+                deadline=dict(quick=120, thorough=1500)),
+           dict(name='c04deep', src=['harness/c04_deep.c'], workers=12,
+                objs=[('@REPO@/librfn/messageq.c', ['-fsanitize=thread'])],
+                deadline=dict(quick=60, thorough=120))],
     rule='stateless exploration of every schedule of the real messageq.c (compiled with -fsanitize=thread against the '
          'replacement runtime engine/vsched.c: a scheduling point before every atomic operation, interrupt handlers injected '
          'as nested run-to-completion calls, spins made blocking), depth-first over choice sequences with a visited set of '
          'complete-state hashes (registered memory + observation history of every live context + ghost monitor); each execution '
          'is checked against a ghost ownership model per buffer (free/claimed/sent/held: no double hand-out, exact payload, claim order, claim fails only with no free buffer counting claims in progress, free count at quiescence); states = distinct hashed '
          'states at choice points, transitions = scheduling steps + injected interrupts, traces = executions run on the real code',
-    bounds=dict(quick='1-2 senders x depth 1..3 x 1-2 messages each, retrying and give-up senders, receiver thread or no receiver, from fresh / wrapped-cursor / full / one-slot-free start states: ALL interleavings (2 senders x 2 messages: <=3 preemptions); 3 senders: <=2 preemptions (senders only: <=3); receiver main + 1..3 sender interrupts nested up to 3 deep and sender main + 1..3 sender interrupts nested up to 2 deep: all placements',
-                thorough='2 senders x 1 message: all interleavings from every start state; 2 senders x 2 messages: <=4 preemptions; 3 senders <=3 preemptions (senders only <=4); up to 4 sender interrupts nested 3 deep: all placements; plus one spurious weak-CAS failure per execution as a further deviation class'),
+    bounds=dict(quick='1-2 senders x depth 1..3 x 1-2 messages each, retrying and give-up senders, receiver thread or no receiver, from fresh / wrapped-cursor / full / one-slot-free start states: ALL interleavings (2 senders x 2 messages: <=3 preemptions); 3 senders: <=2 preemptions (senders only: <=3); receiver main + 1..3 sender interrupts nested up to 3 deep and sender main + 1..3 sender interrupts nested up to 2 deep: all placements; plus the deep-nesting family: N = 1..300 claims in flight at once (each handler interrupted before its atomic operation #P, P = 0..6, by the next), depth 1/2/4/8 x 0..2 buffers free: every tuple, one execution each',
+                thorough='2 senders x 1 message: all interleavings from every start state; 2 senders x 2 messages: <=4 preemptions; 3 senders <=3 preemptions (senders only <=4); up to 4 sender interrupts nested 3 deep: all placements; plus one spurious weak-CAS failure per execution as a further deviation class; deep-nesting chains up to 500 claims'),
     assumptions=['sequentially consistent interleavings at atomic-operation granularity; justified for weak memory by the '
                  'data-race check of C07 over the same scenarios', 'one receiver; releases in receive order (API rule)',
                  'state-hash pruning trusts the 128-bit hash'],
